@@ -388,6 +388,7 @@ def _s_sinks(ctx, S):
 # ---- footprints: which paths can a primitive touch, relative to its path argument --------------------------
 SELF, PAIR, DOWN, UPC, UP, NONE = "{arg}", "{src, dst}", "{arg and its descendants}", "{arg and missing ancestors below an existing root}", \
     "{arg and its ANCESTORS}", "{}"
+SIB = "{src, dst and temporary SIBLINGS of src / dst, i.e. entries of their parent directories}"
 OS_FOOTPRINT = {
     "os.rmdir": SELF, "os.remove": SELF, "os.unlink": SELF, "os.mkdir": SELF, "os.listdir": SELF, "os.stat": SELF, "os.lstat": SELF, "os.chmod": SELF,
     "os.chown": SELF, "os.utime": SELF, "os.open": SELF, "open": SELF, "os.scandir": SELF, "os.access": SELF, "os.readlink": SELF, "os.truncate": SELF,
@@ -404,7 +405,8 @@ FP_FOOTPRINT = {
     "getGroupID": SELF, "getInodeNumber": SELF, "getDevice": SELF, "touch": SELF, "chmod": SELF, "getContent": SELF, "createDirectory": SELF, "changed": NONE,
     "requireCreate": NONE, "segmentsFrom": NONE, "basename": NONE, "splitext": NONE, "asBytesMode": NONE, "asTextMode": NONE, "isBlockDevice": SELF, "isSocket": SELF,
     "children": DOWN, "walk": DOWN, "remove": DOWN, "globChildren": DOWN,
-    "moveTo": PAIR, "copyTo": PAIR, "linkTo": PAIR,
+    "copyTo": PAIR, "linkTo": PAIR,
+    "moveTo": SIB,             # os.rename first; on EXDEV copies into destination.temporarySibling() / self.temporarySibling(): when dst is the root, next to the root
     "makedirs": UPC,
     "setContent": UP,          # writes a temporary *sibling*, i.e. into the parent directory of its receiver
 }
@@ -504,6 +506,11 @@ def _s_footprints(ctx, S):
             if isinstance(c.func, ast.Attribute) and c.func.attr in FP_MUTATING and name in FP_MUTATING and \
                     any(isinstance(x, ast.Call) and call_attr(x) in UPWARD_NAVIGATION and dotted(x.func) and dotted(x.func).startswith("self.") for x in ast.walk(c.func.value)):
                 bad.append(src(c))
+            # the classification of the table is cross-checked against the implementation: a mutating method whose footprint is declared to stay inside
+            # {arg / src, dst / descendants} must not derive a sibling / parent of itself or of a parameter
+            if call_attr(c) in UPWARD_NAVIGATION and FP_FOOTPRINT.get(name) in (SELF, PAIR, DOWN, UPC) and name in FP_MUTATING | {"remove"} and \
+                    isinstance(c.func, ast.Attribute) and isinstance(c.func.value, ast.Name) and c.func.value.id in ["self"] + params(body)[1:]:
+                bad.append(src(c))
         ctx.check(not bad, "shell/footprint-within-subtree", f"twisted.python.filepath.{r[0].name}.{name}",
                   f"FilePath.{name}, which the FTP shells apply to confined paths, itself reaches upwards: {bad[:2]}")
     ctx.floor("shell/footprint-within-subtree", nprim, 15, "primitives applied to confined paths")
@@ -552,6 +559,7 @@ MUTANTS = [
     Mutant("dele-through-dirname", _F, "        try:\n            p.remove()\n        except OSError as e:", "        try:\n            p.remove()\n            os.rmdir(os.path.dirname(p.path))\n        except OSError as e:",
            expect_rule="shell/"),
     Mutant("stor-through-setContent-sibling", _F, "            fObj = p.open(\"w\")\n", "            p.setContent(b\"\")\n            fObj = p.open(\"w\")\n", expect_rule="shell/footprint-within-subtree"),
+    Mutant("rename-with-cross-device-fallback", _F, "            os.rename(fp.path, tp.path)", "            fp.moveTo(tp)", expect_rule="shell/footprint-within-subtree"),
     Mutant("list-stats-from-root", _F, "            fileEntries = [filePath.child(p) for p in entries]", "            fileEntries = [self.filesystemRoot.preauthChild(os.path.join(*path, p)) for p in entries]", expect_rule="shell/"),
 ]
 SILENT = [
